@@ -368,4 +368,70 @@ def run (hs : Hashing) (s : State) : List Op → State
 def init (cap tip : Nat) (fhs : List Nat) (persist : Bool) : State :=
   { chain := { tip := tip, fhs := fhs }, store := { cache := { cap := cap }, persist := persist } }
 
+/-! ## The header source of the verification as a store operation
+
+`prepareCFiltersQuery` takes the headers a response is verified against from the filter-header
+store's range read (`FetchHeaderAncestors`) and from nowhere else.  The store is the file (headers by
+height) plus whatever the implementation keeps in memory of earlier range reads (`mem`: height ↦ header;
+empty in the code as it is).  `truncOld` selects which height a roll back passes on to that memory: the
+tip after the roll back (`false`) or the tip before it (`true`). -/
+
+structure FHStore where
+  file : List Nat
+  mem : List (Nat × Nat) := []
+  deriving Repr, DecidableEq
+
+inductive FHOp where
+  | write (hs : List Nat)
+  | rollback
+  | readRange (lo n : Nat)
+  deriving Repr, DecidableEq
+
+/-- per-height read: `FetchHeaderByHeight` -/
+def FHStore.at? (s : FHStore) (h : Nat) : Option Nat := s.file[h]?
+
+/-- range read: `FetchHeaderAncestors` for the heights `lo, …, lo+n-1`; served from memory if all of them
+are held there, from the file otherwise (and then remembered) -/
+def FHStore.readRange (s : FHStore) (lo n : Nat) : FHStore × List (Option Nat) :=
+  let hsx := List.range' lo n
+  if hsx.all (fun h => (lookup s.mem h).isSome) then (s, hsx.map (lookup s.mem))
+  else ({ s with mem := hsx.filterMap (fun h => (s.file[h]?).map (fun v => (h, v))) }, hsx.map (fun h => s.file[h]?))
+
+def fhStep (truncOld : Bool) (s : FHStore) : FHOp → FHStore
+  | .write hs => { s with file := s.file ++ hs }
+  | .rollback =>
+    if s.file.length ≤ 1 then s
+    else
+      let newTip := s.file.length - 2
+      let t := if truncOld then newTip + 1 else newTip
+      { file := s.file.dropLast, mem := s.mem.filter (fun p => decide (p.1 ≤ t)) }
+  | .readRange lo n => (s.readRange lo n).1
+
+def fhRun (truncOld : Bool) (s : FHStore) : List FHOp → FHStore
+  | [] => s
+  | o :: os => fhRun truncOld (fhStep truncOld s o) os
+
+/-! ## Several filter stores (one per set of chain parameters) in one process
+
+`filterdb.New` writes the basic filter of the genesis block of ITS network under that network's genesis
+hash.  `memo`: what a process-wide table shared by the stores would hold (key ↦ filter); `keyOf` is what
+such a table is keyed by (the code as it is has no such table: `keyOf = id`, one entry per network). -/
+
+structure Stores where
+  dbs : List (Nat × Nat) := []     -- network ↦ filter stored under its genesis hash
+  memo : List (Nat × Nat) := []
+  deriving Repr, DecidableEq
+
+def openStore (gen keyOf : Nat → Nat) (s : Stores) (net : Nat) : Stores :=
+  match lookup s.memo (keyOf net) with
+  | some f => { s with dbs := dbPut s.dbs net f }
+  | none => { dbs := dbPut s.dbs net (gen net), memo := (keyOf net, gen net) :: s.memo }
+
+def openAll (gen keyOf : Nat → Nat) (s : Stores) : List Nat → Stores
+  | [] => s
+  | n :: ns => openAll gen keyOf (openStore gen keyOf s n) ns
+
+/-- `GetCFilter(genesis hash)` of network `net`: answered from that network's database -/
+def genesisGet (s : Stores) (net : Nat) : Option Nat := lookup s.dbs net
+
 end Neutrino.GetCFilter
